@@ -182,12 +182,15 @@ Verdict(st) ==
                      got |-> st.count[o[1]][o[2]]] : o \in Unmet(st) },
         never |-> Dead(st)]
 
+\* methods whose single-use returns() cannot be stored in the current feature set (see Assemble.tla)
+NoMutexFor == IF HasMutexApi THEN {} ELSE { m \in Method : RetOwned[m] }
+
 (***************************************************************************)
 (* Actions                                                                 *)
 (***************************************************************************)
 \* the values every variable takes when a mock is constructed from configuration c
 InitVals(c) ==
-  LET a == Assemble(c.leaves, HasMutexApi) IN
+  LET a == Assemble(c.leaves, NoMutexFor) IN
   [cfg |-> c,
    tab |-> IF a.err.k = "ok" THEN a.tab ELSE EmptyTab,
    newErr |-> a.err,
